@@ -182,8 +182,11 @@ def finish(pid, level, tier, acc, t0, rule, assumptions, extra=None, exhaustive=
             new.append((key, what, case))
     truncated = acc.n['violations_dropped'] > 0
 
-    os.makedirs(os.path.join(VERIF, 'replays'), exist_ok=True)
-    os.makedirs(os.path.join(VERIF, 'evidence'), exist_ok=True)
+    # VERIF_OUT redirects evidence/replays (used only when evaluating seeded changes on scratch copies, so that the
+    # committed evidence always comes from runs against /repo itself)
+    OUT = os.environ.get('VERIF_OUT', VERIF)
+    os.makedirs(os.path.join(OUT, 'replays'), exist_ok=True)
+    os.makedirs(os.path.join(OUT, 'evidence'), exist_ok=True)
     seen_keys = set()
     replay_paths = []
     for key, what, case in new:
@@ -191,7 +194,7 @@ def finish(pid, level, tier, acc, t0, rule, assumptions, extra=None, exhaustive=
             continue
         seen_keys.add(key)
         h = hashlib.sha1(key.encode()).hexdigest()[:12]
-        path = os.path.join(VERIF, 'replays', f'{pid}-{h}.json')
+        path = os.path.join(OUT, 'replays', f'{pid}-{h}.json')
         with open(path, 'w') as fh:
             json.dump({'property': pid, 'key': key, 'what': what, 'case': jsonable(case)}, fh, indent=1)
         replay_paths.append((key, what, path))
@@ -233,7 +236,7 @@ def finish(pid, level, tier, acc, t0, rule, assumptions, extra=None, exhaustive=
         'wall_s': round(time.time() - t0, 3),
         'violations': len(seen_keys),
     }
-    with open(os.path.join(VERIF, 'evidence', f'{pid}.json'), 'w') as fh:
+    with open(os.path.join(OUT, 'evidence', f'{pid}.json'), 'w') as fh:
         json.dump(ev, fh, indent=1, sort_keys=False)
         fh.write('\n')
     status = 'FAIL' if new else 'ok'
